@@ -8,7 +8,8 @@ Record case := mkCase {
   c_parsed : result (bool * list N);   (* (Auto, Servers) of the plugin: as parsed (config driver) or as constructed; Err: rejected *)
   c_lifetime : Z;
   c_addrs : option (list sysip);       (* None: listing addresses failed / plugin not prepared *)
-  c_obs : result (list opt)            (* Apply: Ok options / Err; ignored when the configuration was rejected *)
+  c_obs : result (list opt);           (* Apply: Ok options / Err; ignored when the configuration was rejected *)
+  c_again : list (result (list opt))   (* further Apply calls on the SAME plugin value, same address source: every RA after the first *)
 }.
 
 Definition parsed_eqb (a b : result (bool * list N)) : bool :=
@@ -21,7 +22,8 @@ Definition parsed_eqb (a b : result (bool * list N)) : bool :=
 Definition agree (c : case) : bool :=
   (match c_raw c with Some raw => parsed_eqb (parse_rdnss raw) (c_parsed c) | None => true end)
   && (match c_parsed c with
-      | Ok (auto, servers) => res_opts_eqb (rdnss_Apply auto (c_lifetime c) servers (c_addrs c)) (c_obs c)
+      | Ok (auto, servers) =>
+          forallb (res_opts_eqb (rdnss_Apply auto (c_lifetime c) servers (c_addrs c))) (c_obs c :: c_again c)
       | Err _ => true
       end).
 
@@ -96,24 +98,26 @@ Definition holds_parse (c : case) : bool :=
       end
   end.
 
-Definition holds_apply (c : case) : bool :=
-  match c_parsed c with
+(* one application of the plugin (as parsed: [parsed]) observed as [obs] *)
+Definition holds_apply_on (parsed : result (bool * list N)) (lifetime : Z) (addrs : option (list sysip))
+                          (obs : result (list opt)) : bool :=
+  match parsed with
   | Err _ => true
   | Ok (false, servers) =>
-      match c_obs c with
-      | Ok [ORDNSS t ss] => Z.eqb t (c_lifetime c) && list_eqb N.eqb ss servers
+      match obs with
+      | Ok [ORDNSS t ss] => Z.eqb t lifetime && list_eqb N.eqb ss servers
       | _ => false
       end
   | Ok (true, servers) =>
-      match c_addrs c with
-      | None => negb (is_ok (c_obs c))                    (* listing failed: RA generation fails *)
+      match addrs with
+      | None => negb (is_ok obs)                          (* listing failed: RA generation fails *)
       | Some l =>
           let E := filter spec_eligible l in
-          match E, c_obs c with
+          match E, obs with
           | [], Err _ => true                             (* no eligible address: error *)
           | [], Ok _ => false
           | _, Ok [ORDNSS t (s :: rest)] =>
-              Z.eqb t (c_lifetime c) && list_eqb N.eqb rest servers
+              Z.eqb t lifetime && list_eqb N.eqb rest servers
               && (let ks := map spec_key E in
                   existsb (fun e => (ip_addr e =? s) && forallb (fun k => spec_key e <=? k) ks) E)
           | _, _ => false
@@ -121,6 +125,14 @@ Definition holds_apply (c : case) : bool :=
       end
   end.
 
-Definition holds (c : case) : bool := holds_parse c && holds_apply c.
+Definition holds_apply (c : case) : bool :=
+  holds_apply_on (c_parsed c) (c_lifetime c) (c_addrs c) (c_obs c).
+
+(* every RA generated from the same configuration carries the same option: the static servers as
+   parsed follow the wildcard server in the 2nd, 3rd ... application exactly as in the first *)
+Definition holds_again (c : case) : bool :=
+  forallb (holds_apply_on (c_parsed c) (c_lifetime c) (c_addrs c)) (c_again c).
+
+Definition holds (c : case) : bool := holds_parse c && holds_apply c && holds_again c.
 
 Definition known (c : case) : N := 0.
